@@ -7,7 +7,7 @@ from vlib.wsgi import FragStream, make_environ, call_app
 
 ID = 'C05'
 LEVEL = 'fault_enumeration'
-RULE = ('case = (payload, chunk sizes, per-chunk hex case / leading zeros (0-3, and 14-40: size fields longer than any fixed-width parse) / token extension, last-chunk extension, '
+RULE = ('case = (payload, chunk sizes, per-chunk hex case / leading zeros (0-3, and 14-40: size fields longer than any fixed-width parse) / token or quoted-string extension (escaped quotes, separators inside the quotes), last-chunk extension, 1-5000 chunks, '
         'trailers, buffer >= longest size line, read-fragmentation caps; through WSGI also with an additional Content-Length header of 0 / wire length / 3 / too large, which the transfer coding overrides). Encoded by the harness encoder. For each '
         'encoding: (1) legal decode through _body_read and through WSGI must equal the payload; (2) EVERY strict prefix '
         'that ends before the complete zero-size chunk line must raise BodyParsingError (400 through WSGI); (3) each '
@@ -23,9 +23,14 @@ TOK = 'abcXYZ019-_.!'
 SUBST = [0x00, 0x0a, 0x0d, 0x20, 0x09, 0x30, 0x31, 0x3b, 0x3d, 0x41, 0x46, 0x47, 0x66, 0x67, 0x2d, 0x2b, 0x78, 0x5f, 0xff]
 
 
+# chunk extensions whose value is a quoted-string (RFC 7230 4.1.1), incl. escaped quotes / backslashes and separators inside the quotes
+QUOTED_EXTS = ['a="x y"', 'a="1;2"', 'who="Mr \\"X"', 'k="\\""', 'a="say \\"hi\\""', 'q="\\\\"', 'a="";b="\\"";c', 'n=""', 'a="=";b=c', 'x="\\"\\"\\""', 'a = "b"', 't="\t"']
+
+
 def _strategy():
     ext = st.one_of(st.none(), st.text(TOK, min_size=1, max_size=6),
-                    st.builds(lambda a, b: f'{a}={b}', st.text(TOK, min_size=1, max_size=4), st.text(TOK, min_size=1, max_size=4)))
+                    st.builds(lambda a, b: f'{a}={b}', st.text(TOK, min_size=1, max_size=4), st.text(TOK, min_size=1, max_size=4)),
+                    st.sampled_from(QUOTED_EXTS))
     payload = st.one_of(st.binary(max_size=30), st.binary(max_size=100),
                         st.lists(st.sampled_from([b'\r\n', b'0', b'\r', b'\n', b'a', b'5', b';', b'0\r\n\r\n']), max_size=30).map(b''.join))
     return st.fixed_dictionaries({
@@ -120,6 +125,23 @@ def check_case(ctx, case):
         if out != payload:
             raise CheckFailure(f'decoded body differs ({via}): enc={enc!r} buf={buf} pattern={pattern}: got {out!r}, '
                                f'expected {payload!r}')
+    if case.get('mode') == 'legal_only':
+        # very long encodings: the legal decode and a stride of truncations only (the fault enumeration is quadratic in the length)
+        legal('direct', decode_direct)
+        legal('wsgi', decode_wsgi)
+        last = [x for x in layout if x[0] == 'last'][0]
+        for cut in range(1, last[2], max(1, last[2] // 12)):
+            ctx.evals += 1
+            kind, out = decode_direct(enc[:cut], buf, pattern)
+            if kind != 'reject':
+                raise CheckFailure(f'truncated encoding of {nchunks} chunks accepted: cut at {cut} of {len(enc)}')
+            if cut % 5 == 1:
+                ctx.evals += 1
+                if decode_wsgi(enc[:cut], buf, pattern)[0] != 'reject':
+                    raise CheckFailure(f'truncated encoding of {nchunks} chunks accepted through WSGI: cut at {cut} of {len(enc)}')
+        ctx.count('legal_many_chunks')
+        ctx.nontrivial(('legal', enc, buf, tuple(pattern)))
+        return
     if only is None:
         legal('direct', decode_direct)
         legal('wsgi', decode_wsgi)
@@ -237,6 +259,21 @@ def run(ctx):
     for name, case in load_corpus(ID):
         ctx.guarded(check_case, case)
         ctx.count('corpus')
+    if ctx.shard == 0:
+        base = {'spell': [{'upper': False, 'zeros': 0}], 'last_ext': '', 'last_zeros': 0, 'trailers': [], 'final_crlf': True, 'buf_extra': 8, 'pattern': []}
+        # every quoted-string extension on chunks whose payload itself holds quotes, CRLF and framing-like bytes
+        for qe in QUOTED_EXTS:
+            for payload in (b'HELLO WORLD', b'"\r\nHELLO\r\n3\r\n0\r\n\r\n', b'a"b"c\r\n0\r\n\r\n"', b'"'):
+                for sizes in ([4], [8, 3], [1], [100]):
+                    ctx.guarded(check_case, dict(base, payload=payload, sizes=sizes, exts=[qe], last_ext='', pattern=[]))
+                    ctx.guarded(check_case, dict(base, payload=payload, sizes=sizes, exts=[qe, None], pattern=[3]))
+        ctx.count('quoted_extension_grid')
+        # number of chunks: 1 .. 5000 one- and two-byte chunks (around every plausible recursion / list limit)
+        for nch in (1, 10, 100, 500, 900, 990, 1000, 1010, 1500, 3000, 5000):
+            for size in (1, 2):
+                for pattern in ([], [7]):
+                    ctx.guarded(check_case, dict(base, payload=bytes(65 + i % 26 for i in range(nch * size)), sizes=[size] * nch, exts=[None], pattern=pattern, mode='legal_only'))
+        ctx.count('chunk_count_grid')
     n = 900 if ctx.tier == 'quick' else 6000
     ctx.hyp(_strategy(), check_case, n)
     if ctx.tier == 'thorough' and ctx.shard < 4:
